@@ -13,6 +13,15 @@ CHECKS = {
         note="Trusts Python integer arithmetic and the reading of the statement (floor division, remainder with divisor's sign). "
              "Unary minus on a signed non-negative representation is unreachable from the API and not judged.",
         design="DESIGN.md 5-C08"),
+    "C16": dict(
+        technique="bitmask/set reference model vs coverage.cc on all (state, operation) transitions of a small universe + random sequences; canonical-form hook; Python set model vs aset words",
+        category="exploration",
+        text="covdrv links the repository's coverage.cc and compares every add/remove/is_covered/is_overlap/intersect/find_holes/add_all/remove_all/== "
+             "outcome with a bitmask model for every subset of a 10-12 address universe at four bases (0, 2^32, 2^63, top of space) -- exhaustive for the "
+             "one-step transition relation on canonical states -- plus long random sequences; zwdrv evaluates random aset expressions and all aset words "
+             "against a Python set model (values, positions, domains, rendering, equality of differently built equal sets). H4 asserts canonical form inside the library.",
+        note="Scoped, as the statement is, to ranges ending at or below 2^64-1. Exhaustive only within the small universe; larger sets are sampled.",
+        design="DESIGN.md 5-C16"),
 }
 
 ALL = ["C%02d" % i for i in range(1, 21)]
